@@ -183,6 +183,38 @@ fn probe_with_binary(rep: &mut Report, cwd: &std::path::Path, file: &str, entry:
 	}
 }
 
+/// while alive the calling thread may run on one CPU only (so `available_parallelism()` reports 1)
+struct OneCpu {
+	old: Option<libc::cpu_set_t>,
+}
+impl OneCpu {
+	fn new() -> OneCpu {
+		// SAFETY: plain libc calls on local, zero-initialised sets
+		unsafe {
+			let mut old: libc::cpu_set_t = std::mem::zeroed();
+			if libc::sched_getaffinity(0, std::mem::size_of::<libc::cpu_set_t>(), &mut old) != 0 {
+				return OneCpu { old: None };
+			}
+			let first = (0..libc::CPU_SETSIZE as usize).find(|i| libc::CPU_ISSET(*i, &old));
+			let Some(first) = first else { return OneCpu { old: None } };
+			let mut one: libc::cpu_set_t = std::mem::zeroed();
+			libc::CPU_SET(first, &mut one);
+			if libc::sched_setaffinity(0, std::mem::size_of::<libc::cpu_set_t>(), &one) != 0 {
+				return OneCpu { old: None };
+			}
+			OneCpu { old: Some(old) }
+		}
+	}
+}
+impl Drop for OneCpu {
+	fn drop(&mut self) {
+		if let Some(old) = self.old.take() {
+			// SAFETY: as above
+			unsafe { libc::sched_setaffinity(0, std::mem::size_of::<libc::cpu_set_t>(), &old) };
+		}
+	}
+}
+
 fn hexs(b: &[u8]) -> String {
 	b.iter().take(160).map(|x| format!("{x:02x}")).collect()
 }
@@ -315,6 +347,16 @@ fn run_factory(cx: &CaseCtx, rep: &mut Report, rng: &mut Rng, n: usize, csv_mode
 			(t, csv.into_bytes(), "vpl-argument-mutation")
 		};
 		let _ = std::fs::write(dir.join("data.csv"), &csv_bytes);
+		if !csv_mode && i == 0 {
+			// pipeline files that name themselves / each other as their source: malformed input like any other
+			let _ = std::fs::write(dir.join("self.vpl"), "from_container filename=\"self.vpl\"");
+			let _ = std::fs::write(dir.join("ring_a.vpl"), "from_container filename=\"ring_b.vpl\" | filter_zoom max=5");
+			let _ = std::fs::write(dir.join("ring_b.vpl"), "from_overlayed [ from_debug format=pbf, from_container filename=\"ring_a.vpl\" ]");
+			for (file, class) in [("self.vpl", "vpl-file-naming-itself"), ("ring_a.vpl", "vpl-files-naming-each-other")] {
+				let wit = || json!({"entry": "factory", "class": class, "file": file});
+				probe_with_binary(rep, &dir, file, "factory", class, wit);
+			}
+		}
 		if !csv_mode && i % 4 == 1 {
 			// the pipeline text as a file on disk, opened the way the command line opens a *.vpl: the bytes need not be
 			// UTF-8 (a Latin-1 save, a flipped bit, a cut multi-byte character)
@@ -387,7 +429,7 @@ fn run_factory(cx: &CaseCtx, rep: &mut Report, rng: &mut Rng, n: usize, csv_mode
 
 fn run_mvt(cx: &CaseCtx, rep: &mut Report, rng: &mut Rng, n: usize) {
 	for i in 0..n {
-		let enc = imvt::EncOpts { dup_keys: rng.bool(), dup_vals: rng.bool(), unused_entries: rng.bool(), foreign_field_order: rng.bool() };
+		let enc = imvt::EncOpts { dup_keys: rng.bool(), dup_vals: rng.bool(), unused_entries: rng.bool(), foreign_field_order: rng.bool(), split_packed: rng.chance(0.3) };
 		let layers = imvt::gen_layers(rng, &imvt::GenOpts::default());
 		let seed = imvt::encode_tile(&layers, &enc, rng);
 		let (input, class) = match rng.below(8) {
@@ -459,6 +501,15 @@ fn small_set(rng: &mut Rng, target: &str) -> TileSet {
 
 fn probe_coords(ts: &TileSet, rng: &mut Rng) -> Vec<Key> {
 	let mut v: Vec<Key> = ts.tiles.keys().take(6).cloned().collect();
+	// coordinates without a tile inside the coverage: neighbours of stored tiles, the corners of each level's box
+	for k in ts.tiles.keys().take(4).cloned().collect::<Vec<_>>() {
+		let m = ((1u64 << k.0) - 1) as u32;
+		v.push((k.0, k.1.saturating_sub(1), k.2));
+		v.push((k.0, (k.1 + 1).min(m), (k.2 + 1).min(m)));
+	}
+	for (z, b) in ts.bounds().into_iter().take(3) {
+		v.extend([(z, b.0, b.3), (z, b.2, b.1), (z, b.0, b.1), (z, b.2, b.3)]);
+	}
 	v.push((0, 0, 0));
 	let z = rng.below(32) as u8;
 	v.push((z, rng.range(0, (1u64 << z) - 1) as u32, rng.range(0, (1u64 << z) - 1) as u32));
@@ -721,6 +772,11 @@ fn run_mbtiles(cx: &CaseCtx, rep: &mut Report, rng: &mut Rng, n: usize) {
 					"UPDATE tiles SET zoom_level = 'abc'",
 					"UPDATE tiles SET zoom_level = NULL WHERE rowid = 1",
 					"UPDATE tiles SET zoom_level = 31, tile_column = 2147483647, tile_row = 0 WHERE rowid = 1",
+					// the ends of the 32-bit range next to ordinary rows
+					"INSERT INTO tiles (zoom_level, tile_column, tile_row, tile_data) SELECT zoom_level, -2147483648, tile_row, tile_data FROM tiles LIMIT 1; INSERT INTO tiles (zoom_level, tile_column, tile_row, tile_data) SELECT zoom_level, 2147483647, tile_row, tile_data FROM tiles LIMIT 1",
+					"INSERT INTO tiles (zoom_level, tile_column, tile_row, tile_data) SELECT zoom_level, tile_column, -2147483648, tile_data FROM tiles LIMIT 1; INSERT INTO tiles (zoom_level, tile_column, tile_row, tile_data) SELECT zoom_level, tile_column, 2147483647, tile_data FROM tiles LIMIT 1",
+					"UPDATE tiles SET zoom_level = 2147483647",
+					"UPDATE tiles SET zoom_level = -2147483648 WHERE rowid = 1; UPDATE tiles SET zoom_level = -2147483647 WHERE rowid = 2",
 					"DELETE FROM tiles",
 					"DROP TABLE tiles",
 					"DROP TABLE metadata",
@@ -734,7 +790,12 @@ fn run_mbtiles(cx: &CaseCtx, rep: &mut Report, rng: &mut Rng, n: usize) {
 		}
 		let coords = probe_coords(&ts, rng);
 		let wit = || json!({"entry": "mbtiles", "class": class, "tileset": ts.describe(), "file_len": std::fs::metadata(&path).map(|m| m.len()).unwrap_or(0), "metadata": dump_mbtiles(&path)});
-		let r = guarded(rep, cx, "mbtiles", class, 1000, wit, || match MBTilesReader::open_path(&path) {
+		// now and then on a machine with a single CPU (a small VM, `docker --cpus=1`, `taskset -c 0`)
+		let one_cpu = i % 7 == 3;
+		let r = guarded(rep, cx, "mbtiles", class, 1000, wit, || match {
+			let _pin = if one_cpu { Some(OneCpu::new()) } else { None };
+			MBTilesReader::open_path(&path)
+		} {
 			Err(_) => false,
 			Ok(r) => {
 				guard::block_on(async {
